@@ -501,7 +501,8 @@ class Model:
         return Call('add_hard_link', kw, effect, blob=b)
 
     def op_rm_link(self, op):
-        b, ns, path = self._blob_name(op)
+        # (`bo`: only names of content that a boot catalogue entry refers to)
+        b, ns, path = self._blob_name(op, (lambda b: b.boot_refs > 0) if op.get('bo') else None)
         if b.boot_refs > 0 and 'hidden-bootfile' in self.avoid:
             raise Skip('avoid:hidden-bootfile')
         kw = {{'iso': 'iso_path', 'jol': 'joliet_path', 'udf': 'udf_path'}[ns]: path}
